@@ -167,6 +167,21 @@ void harness(void) {
 	res = KSI_AsyncService_setOption(ha, KSI_ASYNC_OPT_PUSH_CONF_CALLBACK, (void *)push_cb); ASSUME(res == KSI_OK);
 #endif
 
+#ifdef RECYCLE_STALE
+	/* the context recycles HA request wrappers (base.c:331); one wrapper was released earlier with an ARBITRARY state
+	 * (e.g. replies still outstanding when its service was freed) and will be re-used for this request */
+	{
+		KSI_HighAvailabilityRequest *stale = NULL;
+		res = KSI_HighAvailabilityRequestList_new(&ctx->haRequestRecycle); ASSUME(res == KSI_OK);
+		res = KSI_HighAvailabilityRequest_new(ctx, NULL, &stale); ASSUME(res == KSI_OK && stale != NULL);
+		stale->expectedRespCount = ND(size_t, stale_count);
+		stale->hasReq = ND_BOOL(stale_has_req);
+		stale->hasCnf = ND_BOOL(stale_has_cnf);
+		KSI_HighAvailabilityRequest_free(stale);
+		ASSUME(KSI_HighAvailabilityRequestList_length(ctx->haRequestRecycle) == 1);
+	}
+#endif
+
 	/* the user's handle */
 	KSI_AsyncHandle *user = NULL;
 	KSI_AggregationReq *req = NULL;
